@@ -98,6 +98,8 @@ def search(pid, tier, seed, escalate, hints):
                 op[1] = load_reexpress(rng, op[1])
         r1, r2 = scen.run_impl(sc), scen.run_impl(sc2)
         k += 1
+        if 'Timeout' in (r1['err'] or '') + (r2['err'] or ''):
+            continue                    # the harness's own wall-clock limit, not an outcome of the code
         W = lambda cls, what: dict(cls=cls, what=what, case=dict(scenario=sc, reexpressed=sc2))  # noqa
         if (r1['err'] is None) != (r2['err'] is None) or (r1['err'] and r1['err'] != r2['err']):
             if r1.get('build_failed') or r2.get('build_failed'):
